@@ -47,6 +47,7 @@ Rewrite ==
   /\ d < Depth /\ d' = d + 1 /\ UNCHANGED base
   /\ \/ \E i \in Pos(file) : i < Len(file.lines) /\ file' = SwapLines(file, i) /\ UNCHANGED renamed
      \/ \E i \in Pos(file) : IsCompLine(file, i) /\ file' = SplitLine(file, i) /\ UNCHANGED renamed
+     \/ \E i \in Pos(file) : IsCompLine(file, i) /\ file.lines[i].c.kind = "PROD" /\ file' = SplitSigned(file, i) /\ UNCHANGED renamed
      \/ ~renamed /\ file' = RenameIds(file) /\ renamed' = TRUE
      \/ \E i \in Pos(file) : IsCompLine(file, i) /\ file.lines[i].note = "" /\ file' = AddNote(file, i) /\ UNCHANGED renamed
      \/ \E i \in Pos(file) : file' = AddBlank(file, i) /\ UNCHANGED renamed
